@@ -161,7 +161,7 @@ impl Grapheme {
     fn escape(&self, c: char, use_surrogate_pairs: bool) -> String {
         if c.is_ascii() {
             c.to_string()
-        } else if use_surrogate_pairs && ('\u{10000}'..'\u{10ffff}').contains(&c) {
+        } else if use_surrogate_pairs && ('\u{10000}'..='\u{10ffff}').contains(&c) {
             self.convert_to_surrogate_pair(c)
         } else {
             c.escape_unicode().to_string()
